@@ -21,10 +21,10 @@ from edzed import INF_TIME, Goto, UNDEF
 
 PROPERTY = 'C04'
 LEVEL = 'model_checking'
-BOUNDS = {'quick': {'external_events': 2, 'machines': ['generic timed FSM', 'Timer', 'InputExp'],
+BOUNDS = {'quick': {'external_events': 2, 'note': 'at most one symbolic duration source per shard (all three: 1 event)', 'machines': ['generic timed FSM', 'Timer', 'InputExp'],
                     'durations': 'symbolic real (any sign) / INF_TIME / None / absent / "1m30s" for each of class '
                                  'default, t_STATE, per-event duration'},
-          'thorough': {'external_events': 3, 'machines': ['generic timed FSM', 'Timer', 'InputExp'],
+          'thorough': {'external_events': 3, 'note': '3 events where at most one duration source is symbolic, else 2', 'machines': ['generic timed FSM', 'Timer', 'InputExp'],
                        'durations': 'as quick'}}
 OUTSIDE = ["other same-instant orders than CPython's heapq order of the insertion history",
            "IEEE rounding of loop.time()+delay", "more external events / expirations than the bound",
@@ -521,6 +521,8 @@ def shards(tier):
             for k2 in DKINDS:
                 ks = (k0, k1, k2)
                 n = nev
+                if tier == 'thorough' and (ks.count('sym') > 1 or 'str' in ks):
+                    n = 2          # 3 external events only where at most one duration source is symbolic
                 if tier == 'quick':
                     if 'str' in (k1, k2) and ks not in (('none', 'str', 'absent'), ('none', 'none', 'str')):
                         continue
